@@ -593,7 +593,7 @@ func randProgram(rng *rand.Rand, maxLen int, opts progOpts) []tStmt {
 			p = append(p, tStmt{Op: "path"})
 			ty = "path"
 		case c < 27:
-			p = append(p, tStmt{Op: "unwind", Str: []string{"tags", "name", "missing"}[rng.Intn(3)]})
+			p = append(p, tStmt{Op: "unwind", Str: []string{"tags", "name", "missing", "n.j", "n.k", "n"}[rng.Intn(6)]})
 		case c < 28:
 			if !last && !(i == n-2) || windowUsed {
 				continue
